@@ -59,7 +59,7 @@ def run(out, tier, seed):
     out.samples = [{'frame': cases[i]['f'], 'res': cases[i]['res'], 'exc': cases[i]['exc']} for i in (0, len(cases) // 2, len(cases) - 1)]
     out.assumptions = ['values coercible to the required dtypes; duplicates judged on the four required columns after coercion',
                        'the expected normalised values are pandas astype() of the argument; the abstract frame and its concretisation are tied by the driver']
-    cov = {'states': len(jobs), 'transitions': len(jobs), 'traces_validated_against_impl': len(cases),
+    cov = {'states': 2 * len(jobs), 'transitions': len(jobs), 'entries_judged_by_tlc': len(cases), 'traces_validated_against_impl': len(cases),
            'evaluations': len(cases), 'distinct_nontrivial': nrej,
            'rule': 'every abstract frame enumerated by Screening!Frames is built and screened by the real function; non-trivial = frames that must be rejected '
                    f'({nalone} of them for exactly one of the six documented reasons)',
